@@ -39,3 +39,40 @@ TEXT['C05'] = dict(
     technique='contract-based deductive verification: AST-generated VCs with loop invariants + z3/cvc5',
     design_ref='DESIGN.md section 6 C05')
 del NOT_APPLICABLE['C09'], NOT_APPLICABLE['C05']
+
+# ---- properties whose deciding part is (so far) the bounded stand-in only
+_B = 'bounded run-time contract check (stand-in; nothing counted as proved)'
+for _pid, _what in [
+        ('C01', 'operation histories against a list-of-records model'),
+        ('C02', 'pairs of tables against a nested-loop join oracle, termination by kill-timeout'),
+        ('C06', 'inc/exc partition against a row-by-row filter oracle'),
+        ('C11', 'listby/groupby/pivot against regrouping oracles'),
+        ('C14', 'eq laws over an enumerated value universe'),
+        ('C15', 'tree flatten/rebuild/merge over all small trees'),
+        ('C16', 'ulist / dictattr / Dict algebra over complete small scopes'),
+        ('C18', 'decorator transparency over all signature shapes'),
+        ('C19', 'container lifting over enumerated nestings, waiter under every completion order'),
+        ('C20', 'perdictable/join over enumerated key sets, defaults and expiries')]:
+    reg(_pid, 'exploration', rac=True, explanation='Bounded only so far: ' + _what)
+    TEXT[_pid] = dict(level_text='Bounded exploration: the property clauses are evaluated natively around the real functions over an enumerated scope (%s). '
+                                 'Labelled bounded; no obligation is claimed as proved for this property yet.' % _what,
+                      level_note='Oracles are plain Python written from the property statement; scope bounds are in the evidence (coverage.rule).',
+                      technique=_B, design_ref='DESIGN.md section 6 ' + _pid)
+    NOT_APPLICABLE.pop(_pid, None)
+
+for _pid, _what in [
+        ('C03', 'collections of Series/DataFrames on a 6-point grid and bare numpy arrays against set-algebra / as-of oracles'),
+        ('C04', 'every supported spelling of sampled (quick) or all 146097 (thorough) days of 1900-2300'),
+        ('C07', 'cmp laws over all pairs/triples of a 56-value universe, sort on all short lists, dictable.sort'),
+        ('C08', 'operators on 2-4 operands over a 5-point grid against pointwise dict arithmetic'),
+        ('C10', 'drange for every kind of bump against iterated stepping'),
+        ('C12', 'df_fillna / nona on all NaN patterns of short vectors and frames against explicit-loop oracles'),
+        ('C13', 'df_slice / df_unslice on all index subsets x bound positions x brackets, stitching'),
+        ('C17', 'bitemporal publication histories against a per-date fold')]:
+    reg(_pid, 'exploration', rac=True, explanation='Bounded only so far: ' + _what)
+    TEXT[_pid] = dict(level_text='Bounded exploration: the property clauses are evaluated natively around the real functions over an enumerated scope (%s). '
+                                 'Labelled bounded; no obligation is claimed as proved for this property yet.' % _what,
+                      level_note='Oracles are plain Python written from the property statement; scope bounds are in the evidence (coverage.rule).',
+                      technique=_B, design_ref='DESIGN.md section 6 ' + _pid)
+    NOT_APPLICABLE.pop(_pid, None)
+PROPS['C05']['rac'] = True
